@@ -1,9 +1,14 @@
 """C10 - every record is counted once or reported skipped; strict mode; no partial output."""
+import json
+import os
+import shutil
+
+import vcore
 from props._create import create_check, SAB_SCRATCH, SAB_RESET
 
 
 def run(tier):
-    return create_check(
+    rep = create_check(
         "C10", tier,
         "C10: all record sequences of length <= 3 (thorough: 3 over 9 classes, 4 over 5 classes) over record classes "
         "{complete, partially missing, last column missing, multiallelic, (monomorphic, all missing)} plus fault rows "
@@ -11,3 +16,36 @@ def run(tier):
         "projection target x strict on/off. Conservation (mass + skipped = sites) is a TLC invariant of every state.",
         ["MCCreate_hist_quick.cfg"], ["MCCreate_hist_t1.cfg", "MCCreate_hist_t2.cfg"],
         [SAB_SCRATCH, SAB_RESET])
+
+    # Create.tla refines the counter machine ...
+    r = vcore.tlc_must_pass("c10_refine", "MCCreate", "MCCreate_refine.cfg", workers=8, timeout=3000)
+    rep.add_tlc(r)
+    # ... whose conservation invariant is inductive: streams of any length (Apalache)
+    w = vcore.apalache_inductive("c10_counters", "CreateCounters", "CInit", "CNext", "IndInv")
+    rep.extra["apalache_inductive"] = {"module": "CreateCounters", "invariant": "IndInv", "obligations": 2, "wall_s": round(w, 1)}
+    # ... and traces recorded from the real create loop (hook H1) are validated against it by TLC
+    trace, summary = vcore.record_create_trace("c10", big=(tier == "thorough"))
+    v = vcore.validate_trace("c10_trace", trace)
+    rep.add_tlc(v["tlc"])
+    nruns = len(summary["runs"])
+    rep.extra["trace_validation"] = {"runs_recorded": nruns, "events": v["events"], "accepted": v["accepted"],
+                                     "exit_codes": [x["code"] for x in summary["runs"]]}
+    rep.rule += (" Trace validation: %d real `sfs create` runs (repository fixtures and pseudo-random cohorts, with/without "
+                 "projection and --strict) recorded through hook H1 (%d events) and replayed by TLC against CreateTrace.tla, "
+                 "which reuses the actions of CreateCounters.tla; Create.tla refines CreateCounters (TLC) and its invariant "
+                 "is inductive (Apalache), so conservation holds for streams of any length." % (nruns, v["events"]))
+    if any(x["panicked"] for x in summary["runs"]):
+        rep.add_failure("trace", "create/trace/panic", {"runs": [x for x in summary["runs"] if x["panicked"]]})
+    if v["accepted"]:
+        rep.traces_validated += nruns
+        rep.evaluations += v["events"]
+        rep.samples.append({"trace_events": [json.loads(l) for l in open(trace).read().splitlines()[:6]]})
+    else:
+        keep = os.path.join(vcore.VERIF, "replays", "C10")
+        os.makedirs(keep, exist_ok=True)
+        shutil.copy(trace, os.path.join(keep, "rejected.trace.ndjson"))
+        kind = "invariant-" + v["violated"] if v["violated"] else "unmatched-event"
+        rep.add_failure("trace", "create/trace-rejected/" + kind,
+                        {"matched_prefix": v["matched"], "first_unmatched_event": v["first_unmatched"],
+                         "violated_invariant": v["violated"], "trace": os.path.join(keep, "rejected.trace.ndjson")})
+    return rep
